@@ -103,8 +103,8 @@ Proof. exact served_only_after_server_read. Qed.
 Print Assumptions c13_served_only_after_server_read.
 
 (* (d) a client never accepts a new inbound DHT stream (no handler is registered). *)
-Theorem c13_client_refuses_streams : forall a s i s',
-  reachable a s -> cur s = modeClient -> step s (ENewStream i KInDHT) = Some s' -> s' = s.
+Theorem c13_client_refuses_streams : forall a s i neg s',
+  reachable a s -> cur s = modeClient -> step s (ENewStream i KInDHT neg) = Some s' -> s' = s.
 Proof. exact client_refuses_streams. Qed.
 Print Assumptions c13_client_refuses_streams.
 
@@ -120,19 +120,21 @@ Print Assumptions c13_no_service_whenever_client_refuted.
 
 (* 4. Demotion resets: for every interleaving between the start of
    moveToClientMode (s1) and its return (s3), every inbound DHT stream that was
-   open at the start is finished or reset at the return; and at the return every
-   open inbound DHT stream is reset. *)
+   open at the start (its protocol set: [vis]) is finished or reset at the return;
+   and at the return every open inbound DHT stream is reset.  A stream still in
+   protocol negotiation is not a DHT stream yet for the reset loop
+   (pset[s.Protocol()]): it is stopped by its first mode read (clause 3a/3b). *)
 Theorem c13_demotion_resets : forall s0 s1 evs s2 s3 i x,
   step s0 EProcess = Some s1 -> switching s1 = true ->
   run s1 evs = Some s2 -> step s2 ESetModeDone = Some s3 ->
-  find_stream i (streams s1) = Some x -> kind x = KInDHT ->
+  find_stream i (streams s1) = Some x -> kind x = KInDHT -> vis x = true ->
   exists x', find_stream i (streams s3) = Some x' /\ (ph x' = PDone \/ rst x' = true).
 Proof. exact demotion_resets. Qed.
 Print Assumptions c13_demotion_resets.
 
 Theorem c13_demotion_resets_open : forall s s', step s ESetModeDone = Some s' ->
   switching s' = false /\
-  Forall (fun x => kind x = KInDHT -> ph x <> PDone -> rst x = true) (streams s').
+  Forall (fun x => kind x = KInDHT -> vis x = true -> ph x <> PDone -> rst x = true) (streams s').
 Proof. exact demotion_resets_open. Qed.
 Print Assumptions c13_demotion_resets_open.
 
@@ -142,9 +144,9 @@ Print Assumptions c13_demotion_resets_open.
 Theorem c13_server_handles : forall a s, reachable a s -> cur s = modeServer ->
   switching s = false /\ handler s = true /\
   (forall i, find_stream i (streams s) = None ->
-     exists s3 x, run s [ENewStream i KInDHT; EModeRead i; EMessage i true] = Some s3 /\
+     exists s3 x, run s [ENewStream i KInDHT false; EModeRead i; EMessage i true] = Some s3 /\
        find_stream i (streams s3) = Some x /\ handled x = 1 /\ rst x = false /\ ph x = PStart /\ cur s3 = modeServer) /\
-  (forall i x, find_stream i (streams s) = Some x -> ph x = PStart ->
+  (forall i x, find_stream i (streams s) = Some x -> ph x = PStart -> vis x = true ->
      exists s', step s (EModeRead i) = Some s' /\ find_stream i (streams s') = Some (with_read modeServer x)) /\
   (forall i x, find_stream i (streams s) = Some x -> ph x = PRead -> rst x = false ->
      exists s', step s (EMessage i true) = Some s' /\ find_stream i (streams s') = Some (with_handled x)).
@@ -152,18 +154,21 @@ Proof. exact server_handles. Qed.
 Print Assumptions c13_server_handles.
 
 (* Non-vacuity: an auto-server node serves a request, is demoted by a Private
-   event while a second stream is open, refuses a third stream, and is promoted
-   again by Public: a reachable, settled state in server mode with one handled
-   message and both old streams reset. *)
+   event while a second stream is open and a third is still in protocol
+   negotiation (it escapes the reset loop and is stopped by its mode read),
+   refuses a fourth stream, and is promoted again by Public: a reachable, settled
+   state in server mode with one handled message and all three old streams reset. *)
 Definition ex_history : list event :=
-  [ENewStream 1 KInDHT; EModeRead 1; EMessage 1 true; EModeRead 1; ENewStream 2 KInDHT;
-   EEmit ReachabilityPrivate; EProcess; ESetModeDone; EReadErr 1; EModeRead 2; ENewStream 3 KInDHT;
+  [ENewStream 1 KInDHT false; EModeRead 1; EMessage 1 true; EModeRead 1; ENewStream 2 KInDHT false;
+   ENewStream 3 KInDHT true;
+   EEmit ReachabilityPrivate; EProcess; ESetModeDone; EReadErr 1; EModeRead 2;
+   EAnnounce 3; EModeRead 3; ENewStream 4 KInDHT false;
    EEmit ReachabilityUnknown; EEmit ReachabilityPublic; EProcess; EProcess].
 Example c13_nonvacuous :
   exists s0 s, init ModeAutoServer = Some s0 /\ run s0 ex_history = Some s /\
     reachable ModeAutoServer s /\ quiescent s /\ subscribes ModeAutoServer = true /\
     cur s = modeServer /\ total_handled s = 1 /\
-    map (fun x => (sid x, rst x, ph x)) (streams s) = [(1, true, PDone); (2, true, PDone)] /\
+    map (fun x => (sid x, rst x, ph x)) (streams s) = [(1, true, PDone); (2, true, PDone); (3, true, PDone)] /\
     emitted ex_history = [ReachabilityPrivate; ReachabilityUnknown; ReachabilityPublic].
 Proof.
   eexists. eexists. split; [reflexivity|]. split; [vm_compute; reflexivity|].
